@@ -235,4 +235,115 @@ theorem lraXPhase_ok (o : Oracles) (c : MCtx) (hn : c.namesOk) (d : LokiDb) (r :
     rw [lraL_eval o (d.toDbM c) _ fn r.durNs hms hd src'.isNone (entriesX o c.toCtx d r) (by simp [List.lookup])]
     exact having_rep o _ r.cmp _ _ (lraRowL_rep _)
 
+
+/-! ### the source of an unwrapped / quantile range aggregation: entry points with their unwrapped value -/
+/-- the value column `UnwrapPlanner.processSimple` writes on a renewed SELECT -/
+def uwValX (label : String) : Expr :=
+  .call "toFloat64OrZero" [if label = "_entry" then .raw "samples.string" else .mapAt (.raw "samples.labels") label.toUTF8.toList]
+
+theorem unwrapSel_fl (c : Ctx) (k rid : Nat) (fs : List Stage) (label : String) (W : List (Alias × Sel)) :
+    unwrapSel label ((runSelM c (some k) rid (.fl fs)).1.setWiths W) =
+      (runSelG c (some k) rid (.fl fs) "string" (uwValX label)).setWiths W := by
+  rw [runSelM_eq c (some k) rid (.fl fs) (by intro h; cases h)]
+  by_cases hl : label = "_entry" <;>
+    simp [unwrapSel, runSelG, Sel.setWiths, Sel.setCols, Sel.cols, patchCol, getCol, colsRflG, uwValX, hl]
+
+theorem uwValX_eval (o : Oracles) (env : Env) (label : String) (e : EntryX) (ρ : Row)
+    (h1 : ρ.get "samples.labels" = .map e.labels) (h2 : ρ.get "samples.string" = .str e.line) :
+    evalE o env ρ (uwValX label) = .rat (unwrapOfX o label e) := by
+  unfold uwValX unwrapOfX
+  by_cases hl : label = "_entry"
+  · simp [hl, evalE, evalEs, h2]
+  · simp [hl, evalE, evalEs, h1]
+
+theorem entryRows_rep (o : Oracles) (label : String) (j : Bool) (E : List EntryX) :
+    Rep (E.map (rowSN j "string" (fun e => .rat (unwrapOfX o label e)))) (E.map (entryPtX o label)) := by
+  refine ⟨?_, ?_⟩
+  · rw [List.map_map, List.map_map]
+    apply List.map_congr_left
+    intro e _
+    cases j <;> simp [rview, Pt.view, rowSN, entryPtX, Row.get, List.lookup, numOf?]
+  · intro r hr
+    obtain ⟨e, _, rfl⟩ := List.mem_map.mp hr
+    intro p hp
+    cases j <;>
+    · simp only [rowSN, Bool.false_eq_true, if_false, if_true, List.mem_cons, List.not_mem_nil, or_false] at hp
+      rcases hp with rfl | rfl | rfl | rfl | rfl <;> simp [Std5]
+
+
+theorem hasAgg_uwValX (label : String) : hasAgg (uwValX label) = false := by
+  unfold uwValX
+  by_cases hl : label = "_entry" <;> simp [hl, hasAgg, aggNames]
+
+theorem srcAls_zero (id0 : Nat) : srcAls id0 0 = [.named "main", .named "_time_series"] := by
+  simp [srcAls, subAls]
+
+/-- **the samples side of an unwrapped / quantile range aggregation of the labelled path**: one row per entry the
+    selector's pipeline lets through, in timestamp order: its series, its labels, its timestamp, its unwrapped value -/
+theorem uwSource_ok (o : Oracles) (c : MCtx) (hn : c.namesOk) (d : LokiDb) (r : RangeAggX) (hm : r.sel.matchers.length ≤ 63)
+    (label : String) (hl : r.kind.label? = some label) (hpost : r.post = [] ∨ ∃ ch more, r.post = .ch ch :: more) :
+    ∃ n, (sourceX c.toCtx r).id = (labelConds r.sel).length + n ∧
+      PStage o c d r.sel (sourceX c.toCtx r).sel (entryPtsX o c.toCtx d r label) (srcAls (labelConds r.sel).length n) := by
+  rcases hpost with hp | ⟨ch, more, hp⟩
+  · -- no label-rewriting stage: the select of `LogQL.splSel`
+    refine ⟨0, by simp [sourceX, hp, hl], ?_⟩
+    have hsel : (sourceX c.toCtx r).sel = uwJoinBody c.toCtx label (fpWiths c.toCtx r.sel ++
+        [(.named "main", mainSorted c.toCtx r.sel),
+         (.named "_time_series", (timeSeriesSel c.toCtx).setWiths (fpWiths c.toCtx r.sel))]) := by
+      have := splSel_unwrap c (.range ⟨.unwrap .sumOT label, r.sel, r.durNs, none, none, none⟩) .sumOT label rfl
+      simp only [sourceX, hp, hl]
+      exact this
+    have hpts : entryPtsX o c.toCtx d r label = (sortedMatches o c.toCtx d r.sel).map (entryPt o c.toCtx d r.sel label) := by
+      simp only [entryPtsX, hp, limited0]
+      rfl
+    rw [hsel, hpts, srcAls_zero]
+    obtain ⟨T, rest, hE, hT⟩ := fpWiths_eval o c hn d r.sel hm
+    refine ⟨⟨_, rfl, rfl⟩, ?_, ?_⟩
+    · have := (baseWiths_als c.toCtx r.sel).1
+      simpa [uwJoinBody, Sel.withs, baseWiths] using this
+    · rw [evalSelA_eq, evalBodyM_eq_A _ _ _ _ (by rfl)]
+      unfold envOf
+      simp only [uwJoinBody, Sel.withs]
+      rw [evalWithsA_append, hE]
+      simp only [evalWithsA]
+      rw [evalBodyM_eq_A _ _ _ (mainSorted c.toCtx r.sel) (by rfl),
+        mainSorted_eval o c hn d r.sel _ T (by simp [List.lookup]) hT,
+        evalBodyM_eq_A _ _ _ ((timeSeriesSel c.toCtx).setWiths (fpWiths c.toCtx r.sel)) (by rfl),
+        timeSeriesA_eval o c hn d r.sel _ T (by simp [List.lookup]) hT]
+      exact uwJoin_eval o c d r.sel _ label _ _ (by simp [List.lookup, sortedMatches]) (by simp [List.lookup])
+  · obtain ⟨init, rlast, src', rid', F⟩ := source_facts o c hn d r hm ch more hp
+    have huw : rlast.isCh = false := F.uw (by rw [hl]; rfl)
+    obtain ⟨fs, rfl⟩ : ∃ fs, rlast = .fl fs := by
+      cases rlast with
+      | ch cs => simp [Run.isCh] at huw
+      | fl fs => exact ⟨fs, rfl⟩
+    obtain ⟨k, rfl⟩ : ∃ k, src' = some k := by
+      cases src' with
+      | none => have := F.first rfl; simp [Run.isCh] at this
+      | some k => exact ⟨k, rfl⟩
+    have hid : (sourceX c.toCtx r).id = (labelConds r.sel).length + init.length := by
+      simp only [sourceX, hp, hl, runsSource_eq]; exact F.id
+    have hsel : (sourceX c.toCtx r).sel =
+        (runSelG c.toCtx (some k) rid' (.fl fs) "string" (uwValX label)).setWiths (srcWiths c.toCtx r) := by
+      simp only [sourceX, hp, hl, runsSource_eq]
+      rw [F.last, unwrapSel_fl]
+    have hpts : entryPtsX o c.toCtx d r label = (entriesX o c.toCtx d r).map (entryPtX o label) := by
+      simp only [entryPtsX, hp]
+    refine ⟨init.length, hid, ?_⟩
+    rw [hsel, hpts]
+    refine ⟨⟨_, by rw [withs_setWiths, srcWiths_rest], ?_⟩, by rw [withs_setWiths]; exact F.nodup, ?_⟩
+    · have := F.alsEq
+      unfold srcWiths at this
+      rw [als_append] at this
+      unfold baseWiths at this
+      rw [als_append, List.append_assoc, List.append_assoc] at this
+      have h4 := List.append_cancel_left (List.append_cancel_left this)
+      rw [als_append]
+      unfold srcAls
+      rw [← h4]
+      simp [als]
+    · rw [lastRun_eval F "string" (Or.inl rfl) (uwValX label) (hasAgg_uwValX label) (fun e => .rat (unwrapOfX o label e))
+        (fun env e ρ h1 h2 _ => uwValX_eval o env label e ρ h1 h2)]
+      exact entryRows_rep o label false _
+
 end Qryn.LogQL
